@@ -127,15 +127,18 @@ fn drop_job(r: &Replay, k: usize) -> Replay {
     for t in n.plan.threads.iter_mut() {
         let mut jobs = Vec::new();
         let mut reuse = Vec::new();
+        let mut offsets = Vec::new();
         for (p, j) in t.jobs.iter().enumerate() {
             if *j == k {
                 continue;
             }
             jobs.push(if *j > k { *j - 1 } else { *j });
             reuse.push(t.reuse.get(p).copied().unwrap_or(false));
+            offsets.push(t.offsets.get(p).copied().unwrap_or(0));
         }
         t.jobs = jobs;
         t.reuse = reuse;
+        t.offsets = offsets;
     }
     n.plan.threads.retain(|t| !t.jobs.is_empty());
     n
@@ -212,12 +215,16 @@ pub fn minimise(r: &Replay, tmpdir: &str, budget_s: f64) -> Replay {
         let mut cand = best.clone();
         let mut jobs = Vec::new();
         let mut reuse = Vec::new();
+        let mut offsets = Vec::new();
         for t in &cand.plan.threads {
-            jobs.extend(t.jobs.iter().copied());
-            reuse.extend(t.reuse.iter().copied());
+            for p in 0..t.jobs.len() {
+                jobs.push(t.jobs[p]);
+                reuse.push(t.reuse.get(p).copied().unwrap_or(false));
+                offsets.push(t.offsets.get(p).copied().unwrap_or(0));
+            }
         }
         let keys = cand.plan.threads[0].keys.clone();
-        cand.plan.threads = vec![crate::plan::ThreadPlan { keys, jobs, reuse }];
+        cand.plan.threads = vec![crate::plan::ThreadPlan { keys, jobs, reuse, offsets }];
         cand.plan.schedule.clear();
         cand.plan.sched_seed = None;
         if m.ok(&cand) {
@@ -241,7 +248,18 @@ pub fn minimise(r: &Replay, tmpdir: &str, budget_s: f64) -> Replay {
             best = cand;
         }
     }
-    // 4b. no server reuse
+    // 4b. no server reuse, canonical handle layout
+    {
+        let mut cand = best.clone();
+        for t in cand.plan.threads.iter_mut() {
+            for x in t.offsets.iter_mut() {
+                *x = 0;
+            }
+        }
+        if cand.plan != best.plan && m.ok(&cand) {
+            best = cand;
+        }
+    }
     {
         let mut cand = best.clone();
         for t in cand.plan.threads.iter_mut() {
